@@ -1081,7 +1081,7 @@ def run(ctx, out):
                 out.stat("regression-replays-pass")
             else:
                 out.stat("regression-replays-FAIL")
-                out.violations.append({"case": c, "signature": "F-C18-regression-" + signature(r.get("callback", "none"), c["api"], r.get("lock", r["outcome"])),
+                out.violations.append({"case": c, "signature": signature(r.get("callback", "none"), c["api"], r.get("lock", r["outcome"])).replace("F-C18-", "F-C18-regression-", 1),
                                        "what": f"regression replay (fixed finding F-C18a/b/c) fails again: {r['outcome']} {r.get('lock')} in {r.get('method')}",
                                        "stack": r.get("stack")})
     out.stat("run_s", round(time.time() - t0, 1))
